@@ -2,14 +2,27 @@
 
 package hotspot
 
-// Contracts for core/hotspot.
+// Contracts for core/hotspot (properties C05, C06, C13, C14).
 
-// ---- C13: whole-set load. The grouping loop must cope with any element, including nil; the rebuild itself
-// (onRuleUpdate) is under a separate contract.
-//@ func onRuleUpdate(rawResRulesMap) err
-//@   assumed
-//@ func LoadRules(rules) (changed, err)
-//@   props C13
-//@   panics never
-//@   witness n = len(rules)
-//@   replay loadrules_nil
+//@ spec func blocked(r) = r != nil && r.status == base.ResultStatusBlocked
+//@ spec func cellOf(c, k) = sel(sel(gCache, dynptr(c)), k)
+//@ spec func thrOf(c, arg) = has(c.specificItems, arg) ? c.specificItems[arg] : c.threshold
+
+// ---- C06: per-value concurrency
+//@ func (c *baseTrafficShapingController) performCheckingForConcurrencyMetric(arg) r
+//@   props C06
+//@   requires c != nil && c.metric != nil && c.metric.ConcurrencyCounter != nil
+//@   let cnt = c.metric.ConcurrencyCounter
+//@   let cellp = cellOf(cnt, arg)
+//@   let live = cellp == 0 ? 0 : cell(cellp)
+//@   requires cellp != 0 ==> allocated(cellp) && 0 <= cell(cellp) && cell(cellp) < 4611686018427387904
+//@   case seen: cellp != 0
+//@   case first-sight: cellp == 0
+//@   ensures[admit-iff] !blocked(r) <==> live + 1 <= thrOf(c, arg)
+//@   ensures[pass-is-nil] !blocked(r) ==> r == nil
+//@   ensures[counter-untouched] cellp != 0 ==> cell(cellp) == old(cell(cellp)) && gCache == old(gCache)
+//@   ensures[cell-created-zero] cellp == 0 ==> cellOf(cnt, arg) != 0 && cell(cellOf(cnt, arg)) == 0 && fresh(cellOf(cnt, arg))
+//@   ensures[other-values-untouched] forall k Iface :: k != arg ==> cellOf(cnt, k) == old(cellOf(cnt, k))
+//@   modifies gCache
+//@   witness threshold = c.threshold
+//@   replay hotspot_concurrency_first
